@@ -419,9 +419,9 @@ macro_rules! long_sweep_btc {
 long_sweep_btc!(c14_sweep_btc_16, 16, 0x51, 0x60, 0xae, 40);
 //@ id=C14,C05 tier=quick name=c14_sweep_btc_17 timeout=1800 role=long_sweep bound=OP_1+17-pushes+OP_16+CHECKMULTISIG fsarr=1024
 long_sweep_btc!(c14_sweep_btc_17, 17, 0x51, 0x60, 0xae, 40);
-//@ id=C14,C05 tier=thorough name=c14_sweep_btc_256 timeout=7200 role=long_sweep bound=OP_1+256-pushes+OP_1+CHECKMULTISIG(u8-counter-boundary) fsarr=1024 mem=24
+//@ id=C14,C05 tier=extra name=c14_sweep_btc_256 timeout=7200 role=long_sweep bound=OP_1+256-pushes+OP_1+CHECKMULTISIG(u8-counter-boundary) fsarr=1024 mem=24
 long_sweep_btc!(c14_sweep_btc_256, 256, 0x51, 0x51, 0xae, 520);
-//@ id=C14,C05 tier=thorough name=c14_sweep_btc_255 timeout=3000 role=long_sweep bound=OP_1+255-pushes fsarr=1024 mem=24
+//@ id=C14,C05 tier=extra name=c14_sweep_btc_255 timeout=3000 role=long_sweep bound=OP_1+255-pushes fsarr=1024 mem=24
 long_sweep_btc!(c14_sweep_btc_255, 255, 0x51, 0x51, 0xae, 520);
-//@ id=C14,C05 tier=thorough name=c14_sweep_btc_257 timeout=3000 role=long_sweep bound=OP_1+257-pushes+OP_1 fsarr=1024 mem=24
+//@ id=C14,C05 tier=extra name=c14_sweep_btc_257 timeout=3000 role=long_sweep bound=OP_1+257-pushes+OP_1 fsarr=1024 mem=24
 long_sweep_btc!(c14_sweep_btc_257, 257, 0x51, 0x51, 0xae, 520);
